@@ -575,7 +575,7 @@ def rule_py_branch(chk, tree):
         chk.ok("py-branch", "NLDFSplinePlan transform is direction-independent (identity)", nontrivial=False)
 
 
-def analyse(chk):
+def _analyse_own(chk):
     tree = chk.tree
     chk.rule("c-mirror", "C pair: backward linear updates = forward ones with end points exchanged")
     chk.rule("c-dirflag", "one C function with a direction flag: the two specialisations are transposes")
@@ -611,6 +611,12 @@ def analyse(chk):
         "equality of the iteration spaces of the two directions",
         "coefficient values stored in tables (gaunt_vl, ovlp_mats, w_rsp) and their construction",
     ]
+
+
+def analyse(chk):
+    _analyse_own(chk)
+    chk.guard(lambda c_: core.include_findings(c_, 'C10', files=['ciderpress/lib/mod_cider/cider_grids.c', 'ciderpress/lib/mod_cider/convolutions.c', 'ciderpress/lib/mod_cider/conv_interpolation.c', 'ciderpress/lib/mod_cider/fast_sdmx.c'], rules=None,
+                                               why='a data race in one routine of a pair breaks adjointness under more than one thread'))
 
 
 def mutants(tree):
